@@ -35,13 +35,16 @@ func b64(b []byte) string { return base64.StdEncoding.EncodeToString(b) }
 
 // FeeSpec is one fee entry in harness notation: Bps>0 → basis points, else Fixed (string amount).
 type FeeSpec struct {
-	To    string
-	Bps   uint32
-	Fixed string
+	To       string
+	Bps      uint32
+	Fixed    string
+	UseFixed bool `json:",omitempty"` // fixed entry even when Fixed == "" (empty amount string)
 }
 
+func (f FeeSpec) IsFixed() bool { return f.UseFixed || f.Fixed != "" }
+
 func (f FeeSpec) String() string {
-	if f.Fixed != "" {
+	if f.IsFixed() {
 		return fmt.Sprintf("fix(%s)->%s", f.Fixed, shortAddr(f.To))
 	}
 	return fmt.Sprintf("bps(%d)->%s", f.Bps, shortAddr(f.To))
@@ -58,7 +61,7 @@ func shortAddr(a string) string {
 func feeActionJSON(fees []FeeSpec) string {
 	var parts []string
 	for _, f := range fees {
-		if f.Fixed != "" || f.Bps == 0 {
+		if f.IsFixed() {
 			parts = append(parts, fmt.Sprintf(`{"recipient":%s,"amount":{"value":%s}}`, jstr(f.To), jstr(f.Fixed)))
 		} else {
 			parts = append(parts, fmt.Sprintf(`{"recipient":%s,"basis_points":{"value":%d}}`, jstr(f.To), f.Bps))
@@ -204,7 +207,7 @@ func (w *World) MemoViaConstructors(f Fwd, fees []FeeSpec) (string, *core.Payloa
 		var infos []*acttypes.FeeInfo
 		for _, fs := range fees {
 			var fi *acttypes.FeeInfo
-			if fs.Fixed != "" {
+			if fs.IsFixed() {
 				a, err := acttypes.NewFeeAmount(fs.Fixed)
 				if err != nil {
 					return "", nil, err
